@@ -122,7 +122,7 @@ impl Sess {
         match ct {
             20 => vec![1],
             21 => match var % 4 { 0 => vec![1, 0], 1 => vec![2, 40], 2 => vec![2, 0], _ => vec![1] },
-            22 if var == 10 => hs_msg(11, next_seq, &self.other_cert_body),   // decodable Certificate, wrong identity (clear-text injections only)
+            22 if var == 10 => hs_msg(11, next_seq, &self.other_cert_body),   // decodable Certificate, wrong identity (clear text and sealed)
             22 => match var % 10 {
                 0 => hs_msg(20, next_seq, &[0xAB; 12]),                         // Finished, expected seq, wrong verify_data
                 1 => hs_msg(20, next_seq - 1, &[0xAB; 12]),                     // duplicate seq
@@ -259,10 +259,10 @@ pub async fn run_session(target_is_client: bool, script: &[(Inj, bool)]) -> Opti
             let mut b = ((der.len() + 3) as u32).to_be_bytes()[1..].to_vec(); b.extend_from_slice(&(der.len() as u32).to_be_bytes()[1..]); b.extend_from_slice(&der); b } };
     let third: SocketAddr = "127.0.0.9:4444".parse().unwrap();
     let genuine = target.sink_addr;
-    let mut input = format!("init,{},{},{},{},{},{},{},{},{},{}", if target_is_client { "c" } else { "s" },
+    let mut input = format!("init,{},{},{},{},{},{},{},{},{},{},{}", if target_is_client { "c" } else { "s" },
         hex(&keys.master_secret), hex(&keys.client_random), hex(&keys.server_random),
         hex(&keys.client_write_key), hex(&keys.server_write_key), hex(&keys.client_write_iv), hex(&keys.server_write_iv),
-        hex(&sess.vd_client), hex(&sess.vd_server));
+        hex(&sess.vd_client), hex(&sess.vd_server), hex(&sess.other_cert_body));
     let mut out = vec![];
     let mut fails = vec![];
     let mut tags = vec![];
@@ -307,6 +307,12 @@ pub async fn run_session(target_is_client: bool, script: &[(Inj, bool)]) -> Opti
                 if after != before && !auth.iter().any(|(ct, _)| *ct == 21 || *ct == 22) {
                     fails.push((format!("rec:{cls}:state-{before}-to-{after}-unauthenticated"), inj.text()));
                 }
+                // an unauthenticated datagram draws no reply either (reflection / amplification towards the genuine peer) —
+                // except the documented residual: a clear-text ClientHello makes a server re-send its last flight
+                let has_client_hello = parse_records(&dg).iter().any(|r| r.epoch == 0 && r.ctype == 22 && hs::parse_hs(&r.body).iter().any(|m| m.typ == 1));
+                if auth.is_empty() && !sent.is_empty() && !(has_client_hello && !sess.target_is_client) {
+                    fails.push((format!("rec:{cls}:reply-sent-to-unauthenticated-datagram"), inj.text()));
+                }
                 tags.push(format!("inj:{}:{}", cls, if auth.is_empty() { "unauth" } else { "auth" }));
                 if *from_third { tags.push("src:third-party".into()); } else { tags.push("src:genuine".into()); }
                 Obs { letter: after, state: target.state_text(), alive: !target.done, delivered, sent }
@@ -349,7 +355,7 @@ fn gen_inj(rng: &mut Rng, depth: u8) -> Inj {
     let epochs = [0u16, 1, 2, 65535];
     match rng.below(100) {
         0..=24 => Inj::Plain { ct: *rng.pick(&cts), epoch: *rng.pick(&[0u16, 0, 0, 1, 2]), var: rng.below(11) as u8 },
-        25..=44 => Inj::Sealed { ct: *rng.pick(&cts), epoch: *rng.pick(&[1u16, 1, 1, 2, 0, 65535]), var: rng.below(10) as u8,
+        25..=44 => Inj::Sealed { ct: *rng.pick(&cts), epoch: *rng.pick(&[1u16, 1, 1, 2, 0, 65535]), var: rng.below(11) as u8,
                                   seq: *rng.pick(&[0u64, 1, 2, 500, (1 << 48) - 1]) },
         45..=54 => Inj::WrongKey { ct: *rng.pick(&cts), epoch: *rng.pick(&epochs[1..]), var: rng.below(10) as u8, which: rng.below(2) as u8 },
         55..=79 => Inj::Captured { len: *rng.pick(&[1u16, 16, 16, 100, 100, 300, 1200]), mutation: match rng.below(10) {
@@ -381,7 +387,12 @@ fn directed() -> Vec<Vec<(Inj, bool)>> {
         v.push(vec![(Inj::Plain { ct: 21, epoch: 0, var: 0 }, third), (Inj::Captured { len: 16, mutation: Mut::None }, false)]);
         v.push(vec![(Inj::Plain { ct: 22, epoch: 0, var: 0 }, third), (Inj::Captured { len: 16, mutation: Mut::None }, false)]);
         v.push(vec![(Inj::Plain { ct: 22, epoch: 0, var: 3 }, third), (Inj::Plain { ct: 22, epoch: 0, var: 5 }, third)]);
+        // a clear-text *duplicate* Finished (anybody can send one): no re-flight towards the genuine peer
+        v.push(vec![(Inj::Plain { ct: 22, epoch: 0, var: 1 }, third), (Inj::Captured { len: 16, mutation: Mut::None }, false)]);
         v.push(vec![(Inj::Plain { ct: 22, epoch: 0, var: 10 }, third), (Inj::Captured { len: 16, mutation: Mut::None }, false)]);
+        // … and the same Certificate in a record that authenticates (only the key holder can do this): a client that pinned
+        // another fingerprint fails, a server without expectation takes note of it and stays Connected
+        v.push(vec![(Inj::Sealed { ct: 22, epoch: 1, var: 10, seq: 7 }, third), (Inj::Captured { len: 16, mutation: Mut::None }, false)]);
         for ct in [20u8, 21, 22, 23, 24] { for ep in [0u16, 1, 2] {
             v.push(vec![(Inj::Plain { ct, epoch: ep, var: 0 }, third), (Inj::Sealed { ct, epoch: ep.max(1), var: 0, seq: 40 }, third),
                         (Inj::WrongKey { ct, epoch: ep.max(1), var: 0, which: 0 }, third)]);
@@ -463,15 +474,32 @@ fn dec_cases(run: &mut Run, rng: &mut Rng, n: usize) {
 // ---------------------------------------------------------------------------------------------
 // `conc` stream: concurrent senders on a multi-thread runtime
 
-fn conc_case(run: &mut Run, tasks: usize, sends: usize, big: bool, close: bool) {
-    let text = format!("conc {tasks} {sends} {} {}", big as u8, close as u8);
-    let rt = tokio::runtime::Builder::new_multi_thread().worker_threads(4).enable_all().build().unwrap();
+fn conc_case(run: &mut Run, tasks: usize, sends: usize, big: bool, close: bool) { conc_case_ext(run, tasks, sends, big, close, false, false) }
+
+/// `lineup`: the `send_record` probe (point 4, between the epoch load and the sequence-number allocation) makes all
+/// sender tasks wait for each other there, so they allocate at the same instant over and over: an allocation that is
+/// not one atomic step collides almost surely instead of by luck.  `server`: the sending endpoint is the server.
+fn conc_case_ext(run: &mut Run, tasks: usize, sends: usize, big: bool, close: bool, lineup: bool, server: bool) {
+    let text = format!("conc {tasks} {sends} {} {}{}{}", big as u8, close as u8, if lineup { " lineup" } else { "" }, if server { " server" } else { "" });
+    let rt = tokio::runtime::Builder::new_multi_thread().worker_threads(if lineup { tasks.max(4) + 1 } else { 4 }).enable_all().build().unwrap();
+    if lineup {
+        let arrived = std::sync::Arc::new(std::sync::atomic::AtomicUsize::new(0));
+        let n = tasks;
+        rustrtc::verif_hooks::dtls::set_publish_probe(Some(std::sync::Arc::new(move |_inst, point| {
+            if point != 4 { return; }
+            let ticket = arrived.fetch_add(1, std::sync::atomic::Ordering::SeqCst);
+            let target = (ticket / n + 1) * n;
+            let t0 = std::time::Instant::now();
+            while arrived.load(std::sync::atomic::Ordering::SeqCst) < target && t0.elapsed() < std::time::Duration::from_millis(3) { std::hint::spin_loop(); }
+        })));
+    }
     let res = rt.block_on(async move {
         let (cc, sc) = certs();
         let mut pair = Pair::connect(cc, sc, None, None).await?;
-        let keys = pair.c.keys()?;
+        let ep = if server { &mut pair.s } else { &mut pair.c };
+        let keys = ep.keys()?;
         // drain concurrently so the sink's socket buffer never overflows
-        let sink = pair.c.sink.try_clone().unwrap();
+        let sink = ep.sink.try_clone().unwrap();
         sink.set_nonblocking(false).unwrap();
         sink.set_read_timeout(Some(std::time::Duration::from_millis(300))).unwrap();
         let stop = std::sync::Arc::new(std::sync::atomic::AtomicBool::new(false));
@@ -490,7 +518,7 @@ fn conc_case(run: &mut Run, tasks: usize, sends: usize, big: bool, close: bool) 
         let progress = std::sync::Arc::new(std::sync::atomic::AtomicUsize::new(0));
         let mut expected_records = 0usize;
         for t in 0..tasks {
-            let d = pair.c.dtls.clone();
+            let d = ep.dtls.clone();
             let len = if big && t % 2 == 0 { 2500 } else { 40 + t };
             expected_records += sends * ((len + 1199) / 1200);
             let prog = progress.clone();
@@ -502,16 +530,17 @@ fn conc_case(run: &mut Run, tasks: usize, sends: usize, big: bool, close: bool) 
         // let the senders get going: close() must race them, not precede them
         if close && tasks > 1 { while progress.load(std::sync::atomic::Ordering::SeqCst) < (tasks * sends) / 3 { tokio::task::yield_now().await; } }
         // close() while the senders are still running: the alert allocates its sequence number concurrently
-        if close { pair.c.dtls.close(); pair.c.poll_quiesce().await; }
+        if close { ep.dtls.close(); ep.poll_quiesce().await; }
         for h in hs { let _ = h.await; }
         tokio::time::sleep(std::time::Duration::from_millis(50)).await;
         stop.store(true, std::sync::atomic::Ordering::SeqCst);
         let got = drainer.join().unwrap();
-        pair.c.sink.set_nonblocking(true).unwrap();
+        ep.sink.set_nonblocking(true).unwrap();
         Some((got, keys, expected_records))
     });
+    if lineup { rustrtc::verif_hooks::dtls::set_publish_probe(None); }
     let Some((got, keys, expected)) = res else { run.count("handshake_retry"); return; };
-    let (k, iv) = write_dir(&keys, true);
+    let (k, iv) = write_dir(&keys, !server);
     let mut app: Vec<(u16, u64)> = vec![];
     let mut alert: Option<(u16, u64)> = None;
     let mut seen = BTreeSet::new();
@@ -671,15 +700,21 @@ pub fn run(args: &Args) {
         for (fc, kinds) in [(false, vec![2u8, 11, 12, 14, 200, 20]), (true, vec![16u8, 200, 20])] {
             for k in kinds { for ct in [23u8, 21, 22, 20] { scripts.push(Script { ce: 'o', se: 'n', rules: vec![Rule { from_client: fc, typ: k, act: Act::PreInject(ct) }] }); } }
         }
+        // close() at every stage of the handshake (before keys; between key derivation and Connected, where the alert
+        // must take the context's sequence number and not reuse the Finished record's): nonce oracle over all sealed records
+        for (fc, k, a) in [(false, 2u8, Act::CloseClient), (false, 14, Act::CloseClient), (false, 200, Act::CloseClient), (false, 20, Act::CloseClient),
+                           (true, 16, Act::CloseServer), (true, 200, Act::CloseServer), (true, 20, Act::CloseServer)] {
+            scripts.push(Script { ce: 'o', se: 'n', rules: vec![Rule { from_client: fc, typ: k, act: a }] });
+        }
         for sc in &scripts {
             for _ in 0..3 {
                 if let Some(o) = rt.block_on(run_script(sc)) {
                     for (i, l) in &o.lines { run.case("hs", i, l, true); }
                     run.count("handshake_phase_injection_scripts");
-                    for (sig, d) in o.fails { if sig.starts_with("rec:") || sig.starts_with("noconn:") || sig.starts_with("state:") { run.fail(&sig, &format!("hs {d}"), &sc.text()); } }
+                    for (sig, d) in o.fails { if sig.starts_with("rec:") || sig.starts_with("noconn:") || sig.starts_with("state:") || sig.starts_with("nonce:") { run.fail(&sig, &format!("hs {d}"), &sc.text()); } }
                     // a discarded record is as good as absent: the handshake around it must still complete
                     // (judged where the target already holds keys — before that a clear-text handshake message is legal input)
-                    if matches!(sc.rules[0].typ, 200 | 20) && !o.tags.iter().any(|t| t == "both_connected") {
+                    if matches!(sc.rules[0].act, Act::PreInject(_)) && matches!(sc.rules[0].typ, 200 | 20) && !o.tags.iter().any(|t| t == "both_connected") {
                         let fin = o.tags.iter().find(|t| t.starts_with("final:")).cloned().unwrap_or_default();
                         run.fail(&format!("rec:handshake-phase:clear-text-record-disturbed-the-handshake:{}", sc.rules[0].typ), &format!("hs {}", sc.text()), &fin);
                     }
@@ -700,6 +735,8 @@ pub fn run(args: &Args) {
              (16, 200, true, true), (12, 150, false, true), (5, 200, true, true), (9, 33, false, false), (16, 100, false, true), (7, 77, true, true)]
     } else { vec![(1, 1, false, true), (4, 20, true, true), (8, 60, false, true), (8, 60, false, true), (12, 40, false, true), (16, 10, false, false)] };
     for (t, s, b, c) in conc { conc_case(&mut run, t, s, b, c); }
+    // senders lined up at the allocation point (both roles)
+    for (t, n, srv) in if args.tier_thorough { vec![(8, 200, false), (8, 200, true), (16, 100, false), (3, 300, true)] } else { vec![(8, 60, false), (6, 60, true)] } { conc_case_ext(&mut run, t, n, false, false, true, srv); }
     run.notes.insert("scope".into(), serde_json::json!("sessions = fresh real DtlsTransport pair, connected through the harness proxy, then injections at one endpoint; oracle table = AES-128-GCM results computed by the harness from RFC nonce/AAD"));
     run.finish();
 }
